@@ -56,7 +56,13 @@ type ByzHost struct {
 	Pools     map[proto4.Account]types.Currency
 
 	M Mut
-	T *Transport
+	// PlayAlong makes the host skip every request validation and answer an
+	// impossible request (range outside the contract, zero length, empty list)
+	// with whatever would make the call look successful: the right number of
+	// roots, an empty or clipped proof, a genuine signature over the revision
+	// the arguments imply.
+	PlayAlong bool
+	T         *Transport
 	// RawMutate, when set, perturbs the encoded bytes of message idx (fuzzing).
 	RawMutate func(idx int, wire []byte) []byte
 
@@ -410,7 +416,7 @@ func (h *ByzHost) handleRead(s net.Conn) error {
 		return err
 	}
 	h.req(req)
-	if err := req.Validate(h.Key.PublicKey()); err != nil {
+	if err := req.Validate(h.Key.PublicKey()); err != nil && !h.PlayAlong {
 		h.rpcErr(s, err.Error())
 		return nil
 	}
@@ -420,6 +426,29 @@ func (h *ByzHost) handleRead(s net.Conn) error {
 		return nil
 	}
 	off, ln := req.Offset, req.Length
+	if h.PlayAlong {
+		// serve the closest thing that exists: announce the requested length,
+		// stream the part of the sector that lies inside it
+		resp := &proto4.RPCReadSectorResponse{DataLength: ln}
+		var data []byte
+		if off < proto4.SectorSize {
+			end := min(off+ln, proto4.SectorSize)
+			if end < off {
+				end = proto4.SectorSize
+			}
+			data = sec.Data[off:end]
+			a, b := off/proto4.LeafSize, (end+proto4.LeafSize-1)/proto4.LeafSize
+			if b > a {
+				resp.Proof = sec.RangeProof(a*proto4.LeafSize, (b-a)*proto4.LeafSize)
+			}
+		}
+		if err := h.emit(s, 0, resp, nil); err != nil {
+			return err
+		}
+		h.record(1, data, data, nil, false)
+		_, err := s.Write(data)
+		return err
+	}
 	if off%proto4.LeafSize != 0 || ln%proto4.LeafSize != 0 {
 		h.rpcErr(s, "offset and length must be multiples of leaf size")
 		return nil
@@ -655,7 +684,7 @@ func (h *ByzHost) handleRoots(s net.Conn) error {
 	if c == nil {
 		return nil
 	}
-	if err := req.Validate(h.Key.PublicKey(), c.Rev); err != nil {
+	if err := req.Validate(h.Key.PublicKey(), c.Rev); err != nil && !h.PlayAlong {
 		h.rpcErr(s, err.Error())
 		return nil
 	}
@@ -667,6 +696,22 @@ func (h *ByzHost) handleRoots(s net.Conn) error {
 	rev.RenterSignature = req.RenterSignature
 	rev.HostSignature = h.Key.SignHash(h.CS.ContractSigHash(rev))
 	off, ln := req.Offset, req.Length
+	if n := uint64(len(c.Roots)); h.PlayAlong && (ln == 0 || off > n || ln > n-off) {
+		// exactly `length` roots (real ones where they exist, made up beyond),
+		// the proof of the part that exists, a genuine signature
+		resp := &proto4.RPCSectorRootsResponse{HostSignature: rev.HostSignature}
+		for i := uint64(0); i < ln && i < 1<<16; i++ {
+			if off+i < n && off+i >= off {
+				resp.Roots = append(resp.Roots, c.Roots[off+i])
+			} else {
+				resp.Roots = append(resp.Roots, types.Hash256{0xF0, byte(i), byte(i >> 8)})
+			}
+		}
+		if off < n && ln > 0 {
+			resp.Proof = proto4.BuildSectorRootsProof(c.Roots, off, n)
+		}
+		return h.emit(s, 0, resp, nil)
+	}
 	resp := &proto4.RPCSectorRootsResponse{
 		Proof:         proto4.BuildSectorRootsProof(c.Roots, off, off+ln),
 		Roots:         cloneHashes(c.Roots[off : off+ln]),
@@ -714,7 +759,7 @@ func (h *ByzHost) handleAppend(s net.Conn) error {
 		return err
 	}
 	h.req(req)
-	if err := req.Validate(h.Key.PublicKey()); err != nil {
+	if err := req.Validate(h.Key.PublicKey()); err != nil && !h.PlayAlong {
 		h.rpcErr(s, err.Error())
 		return nil
 	}
@@ -863,8 +908,11 @@ func (h *ByzHost) handleFree(s net.Conn) error {
 		return nil
 	}
 	if err := req.Validate(h.Key.PublicKey(), c.Rev); err != nil {
-		h.rpcErr(s, err.Error())
-		return nil
+		if !h.PlayAlong {
+			h.rpcErr(s, err.Error())
+			return nil
+		}
+		return h.playAlongFree(s, req, c)
 	}
 	tree, leaves := proto4.BuildFreeSectorsProof(c.Roots, req.Indices)
 	newRoots := SwapRemove(c.Roots, req.Indices)
@@ -947,6 +995,52 @@ func (h *ByzHost) handleFree(s net.Conn) error {
 		c.Roots = newRoots
 	}
 	return h.emit(s, 1, third, func(kind string) bool { return h.sigMut(&third.HostSignature, kind, rev, prev) })
+}
+
+// playAlongFree answers a free request whose indices do not all exist: the
+// host treats the impossible swaps as no-ops, trims as many sectors as there
+// are indices (as far as the contract goes), proves exactly that, and signs
+// the revision the renter will derive from the announced root.
+func (h *ByzHost) playAlongFree(s net.Conn, req proto4.RPCFreeSectorsRequest, c *BContract) (err error) {
+	defer func() {
+		if r := recover(); r != nil {
+			// core's proof builders may reject the arguments outright; then
+			// the host has nothing plausible to say
+			h.rpcErr(s, "cannot play along")
+			err = nil
+		}
+	}()
+	n := uint64(len(c.Roots))
+	roots := cloneHashes(c.Roots)
+	for i, idx := range req.Indices {
+		last := n - uint64(i) - 1
+		if idx < n && last < n {
+			roots[idx] = roots[last]
+		}
+	}
+	keep := uint64(0)
+	if uint64(len(req.Indices)) < n {
+		keep = n - uint64(len(req.Indices))
+	}
+	roots = roots[:keep]
+	tree, leaves := proto4.BuildFreeSectorsProof(c.Roots, req.Indices)
+	resp := &proto4.RPCFreeSectorsResponse{OldSubtreeHashes: tree, OldLeafHashes: leaves, NewMerkleRoot: proto4.MetaRoot(roots)}
+	if err := h.emit(s, 0, resp, nil); err != nil {
+		return err
+	}
+	rev, _, rerr := proto4.ReviseForFreeSectors(c.Rev, req.Prices, resp.NewMerkleRoot, len(req.Indices))
+	if rerr != nil {
+		h.rpcErr(s, rerr.Error())
+		return nil
+	}
+	var second proto4.RPCFreeSectorsSecondResponse
+	if err := proto4.ReadResponse(s, &second); err != nil {
+		return err
+	}
+	h.req(second)
+	rev.RenterSignature = second.RenterSignature
+	rev.HostSignature = h.Key.SignHash(h.CS.ContractSigHash(rev))
+	return h.emit(s, 1, &proto4.RPCFreeSectorsThirdResponse{HostSignature: rev.HostSignature}, nil)
 }
 
 func (h *ByzHost) handleFund(s net.Conn) error {
